@@ -105,6 +105,9 @@ type dnsBehaviour struct {
 	// style of a truncated answer: "empty" (TC, answer section empty) |
 	// "partial" (TC, the longest prefix of the answer section that fits).
 	style string
+	// fault (group K, e2ef_test.go): answer the queries of one type with a
+	// failure RCODE / an answer that denies the records; nil: none.
+	fault *dnsFault
 }
 
 // dnsFacts: what the server saw since the last reset.
@@ -117,6 +120,9 @@ type dnsFacts struct {
 	tlsaKept, tlsaTotal    int            // records left in / belonging to that answer
 	exactFit               int            // UDP answers that exactly filled the limit and were sent complete
 	packErr                int
+	faultServed            int // answers replaced by the configured fault (group K)
+	faultMatched           int // queries of the fault's type seen (served with the fault or, after the first n, from the zone)
+	tlsaFromZone           int // TLSA queries answered from the zone data
 }
 
 // bigDNS serves a go-mockdns zone map through miekg/dns servers on one UDP and
@@ -242,6 +248,12 @@ func (s *bigDNS) serve(w miekgdns.ResponseWriter, m *miekgdns.Msg, overTCP bool)
 		return
 	}
 	qtype := miekgdns.TypeToString[m.Question[0].Qtype]
+	if s.serveFault(w, m, reply) {
+		return
+	}
+	if qtype == "TLSA" {
+		s.facts.tlsaFromZone++
+	}
 	adv := 512
 	if o := m.IsEdns0(); o != nil {
 		if int(o.UDPSize()) > adv {
